@@ -283,6 +283,18 @@ func newNonceCache(ttl time.Duration, capacity int, now func() time.Time) *nonce
 	}
 }
 
+// proofReplayTTL is how long an accepted nonce must be remembered for a given
+// skew: until its timestamp can no longer pass [VerifyProof]'s window.
+//
+// The window is two-sided and compared in whole seconds, so a proof accepted
+// at t may carry ts = t+skew and then stays acceptable through the end of
+// second t+2*skew. A TTL of skew alone forgets it half-way (and forgets even a
+// ts = t proof exactly as its last acceptable second begins), reopening replay
+// for the rest of the window.
+func proofReplayTTL(skewSeconds int) time.Duration {
+	return time.Duration(2*skewSeconds+1) * time.Second
+}
+
 // checkAndAdd atomically reports whether a nonce is fresh, remembering it if so.
 //
 // Test and insert are one locked operation: a separate contains-then-add would
@@ -357,7 +369,7 @@ func ProofAuthenticate(cfg ProofConfig, inner AuthenticateFunc) (AuthenticateFun
 	}
 	var cache *nonceCache
 	if !cfg.DisableReplayCache {
-		cache = newNonceCache(time.Duration(cfg.SkewSeconds)*time.Second, capacity, cfg.Now)
+		cache = newNonceCache(proofReplayTTL(cfg.SkewSeconds), capacity, cfg.Now)
 	}
 	required := cfg.Mode == ProofModeRequire
 	local := cfg
